@@ -136,7 +136,15 @@ func (w *hostileWorld) Exec(p *Plan, st *RunStats) *Violation {
 			case op.N == "Fresh":
 				s = s.Fresh()
 			case op.N == "NestedContainers":
-				nestedProbe(op.A[0])
+				nestedProbe(o, op.A[0])
+				for _, k := range []string{"treeset", "treemap", "redblacktree", "avltree", "btree", "treebidimap", "binaryheap", "priorityqueue"} {
+					o.cur = op
+					pointerElementsProbe(o, "C17", k, op.A[0]+len(k))
+				}
+				for _, k := range append(append(append([]string(nil), listKinds...), sqKinds...), "hashset", "linkedhashset") {
+					zeroSizeProbe(o, "C17", k)
+				}
+				o.Kind = p.Cfg.Kind
 			case op.X == 9:
 				inert.V = nil
 				s.Step(op, inert)
